@@ -78,6 +78,8 @@ type harnessRun struct {
 	stderr  string
 	replays []replayOutcome
 	skipped bool
+	transcript string
+	cross      map[string]interface{}
 }
 
 type replayOutcome struct {
@@ -267,6 +269,8 @@ func cmdCheck(args []string) {
 			}
 			if *tier == "thorough" {
 				a = append(a, "-qtimeout=60000")
+				r.transcript = filepath.Join(scratch, fmt.Sprintf("tr-%d.smt2", i))
+				a = append(a, "-transcript="+r.transcript)
 			}
 			to := r.spec.Timeout
 			if to == 0 {
@@ -339,6 +343,32 @@ func cmdCheck(args []string) {
 				continue
 			}
 			fresh = append(fresh, vio{r, v})
+		}
+	}
+
+	// ---- cross-solver diff (thorough): every logged query re-decided by z3 5.1.0 and cvc5 ----
+	if *tier == "thorough" {
+		var cwg sync.WaitGroup
+		for _, r := range runs {
+			if r.transcript == "" || r.out == nil {
+				continue
+			}
+			cwg.Add(1)
+			go func(r *harnessRun) {
+				defer cwg.Done()
+				sem <- true
+				defer func() { <-sem }()
+				r.cross = crossSolver(r.transcript)
+			}(r)
+		}
+		cwg.Wait()
+		for _, r := range runs {
+			if r.cross == nil {
+				continue
+			}
+			if d, _ := r.cross["disagreements"].(int); d > 0 {
+				inconclusive = append(inconclusive, fmt.Sprintf("%s: solvers disagree on %d queries (engine error, not a violation): %v", r.spec.Func, d, r.cross))
+			}
 		}
 	}
 
@@ -796,6 +826,7 @@ func writeEvidence(root, prop, tier string, seed int, ps *PropertySpec, runs []*
 			"decisions": res.Decisions, "obligations": res.Obligations, "discharged_unsat": res.Discharged,
 			"violations_found": len(res.Violations), "reach_labels": res.Reached, "opaque_calls": res.Opaque,
 			"solver": res.Solver, "wall_s": r.wall, "max_steps_per_path": res.MaxSteps, "native_replays": reps,
+			"cross_solver": r.cross,
 		})
 	}
 	var fl []string
@@ -905,4 +936,86 @@ func cmdReplay(args []string) {
 	if o.assertFail != "" || o.panicked || o.timedOut {
 		os.Exit(1)
 	}
+}
+
+// crossSolver replays a transcript through z3 4.8.12, z3 5.1.0 and cvc5 and compares the answers.
+func crossSolver(path string) map[string]interface{} {
+	data, err := os.ReadFile(path)
+	if err != nil {
+		return map[string]interface{}{"error": err.Error()}
+	}
+	if len(data) > 400<<20 {
+		return map[string]interface{}{"skipped": "transcript larger than 400 MiB"}
+	}
+	var sb strings.Builder
+	hasFP := false
+	for _, line := range strings.Split(string(data), "\n") {
+		if strings.HasPrefix(line, "(get-value") {
+			continue
+		}
+		if strings.Contains(line, "fp.to_ieee_bv") {
+			hasFP = true
+		}
+		sb.WriteString(line)
+		sb.WriteByte('\n')
+	}
+	text := sb.String()
+	run := func(name string, args []string, input string) ([]string, string) {
+		cmd := exec.Command("timeout", append([]string{"3600", name}, args...)...)
+		cmd.Stdin = strings.NewReader(input)
+		out, err := cmd.Output()
+		var ans []string
+		for _, l := range strings.Split(string(out), "\n") {
+			l = strings.TrimSpace(l)
+			if l == "sat" || l == "unsat" || l == "unknown" || strings.HasPrefix(l, "(error") {
+				ans = append(ans, l)
+			}
+		}
+		if err != nil && len(ans) == 0 {
+			return nil, err.Error()
+		}
+		return ans, ""
+	}
+	base, e0 := run("z3", []string{"-in"}, text)
+	res := map[string]interface{}{"queries": len(base)}
+	if e0 != "" {
+		res["error"] = "z3: " + e0
+		return res
+	}
+	disagreements := 0
+	compare := func(name string, ans []string, e string) {
+		if e != "" {
+			res[name] = "failed: " + e
+			return
+		}
+		if len(ans) != len(base) {
+			res[name] = fmt.Sprintf("answered %d of %d queries", len(ans), len(base))
+			disagreements++
+			return
+		}
+		d, unk := 0, 0
+		for i := range ans {
+			if strings.HasPrefix(ans[i], "(error") {
+				d++
+			} else if ans[i] == "unknown" || base[i] == "unknown" {
+				unk++
+			} else if ans[i] != base[i] {
+				d++
+			}
+		}
+		res[name] = fmt.Sprintf("%d disagreements, %d unknown", d, unk)
+		disagreements += d
+	}
+	a1, e1 := run("z3-new", []string{"-in"}, text)
+	compare("z3-5.1.0", a1, e1)
+	if hasFP {
+		res["cvc5"] = "skipped: transcript uses fp.to_ieee_bv (z3-specific)"
+	} else {
+		ctext := regexp.MustCompile(`\(set-option :timeout \d+\)`).ReplaceAllString(text, "")
+		ctext = "(set-logic ALL)\n" + strings.ReplaceAll(ctext, "(reset)", "(reset)\n(set-logic ALL)")
+		a2, e2 := run("cvc5", []string{"--incremental", "--produce-models"}, ctext)
+		compare("cvc5-1.0", a2, e2)
+	}
+	res["disagreements"] = disagreements
+	return res
 }
